@@ -97,10 +97,6 @@ def translate_c_from_projectq(projectq_str):
     GATE_PROJECTQ = get_projectq_gates()
     gate_mapping = {v: k for k, v in GATE_PROJECTQ.items()}
 
-    # TODO account for mid-circuit measurements, only ignore final measurements
-    # Ignore Measure instructions
-    projectq_str = re.sub(r'Measure(.*)\n', '', projectq_str)
-
     # Ignore allocate and deallocate instructions.
     # Number of qubits is inferred by the abstract circuit, no (de)allocation will occur mid-circuit.
     projectq_str = re.sub(r'(.*)llocate(.*)\n', '', projectq_str)
@@ -115,7 +111,7 @@ def translate_c_from_projectq(projectq_str):
         qubit_indices = [int(index) for index in re.findall(r'Qureg\[(\d+)\]', projectq_gate)]
         parameters = [float(index) for index in re.findall(r'\((.*)\)', projectq_gate) if "Qureg" not in index]
 
-        if gate_name in {"H", "X", "Y", "Z", "S", "T"}:
+        if gate_name in {"H", "X", "Y", "Z", "S", "T", "Measure"}:
             gate = Gate(gate_mapping[gate_name], qubit_indices[0])
         elif gate_name in {"Rx", "Ry", "Rz", "R"}:
             gate = Gate(gate_mapping[gate_name], qubit_indices[0], parameter=parameters[0])
